@@ -621,6 +621,21 @@ def main (mx : Nat) (passes : List Pass) (c : Ctx) : Outcome :=
     let r := concat passes
     ⟨if r.ok then 0 else 1, r.executed, r.printed, if r.ok then 0 else 1⟩
 
+/-! ## The process: `build.Generate`
+
+`Generate` hands `Main`'s result to `os.Exit` when it is not 0 and returns
+normally (process exit code 0) when it is.  The "status" of a generation, as
+`go generate`, make or a CI job see it, is the exit code of that process, and the
+operating system keeps only the low 8 bits of the value given to `exit`
+(measured on every run: request `c18exit`).  A `Main` that answers a failure with
+a multiple of 256 therefore reports success. -/
+
+/-- What the operating system keeps of `os.Exit(status)` (for negative values too: `-1 ↦ 255`). -/
+def exitCode (status : Int) : Nat := (status % 256).toNat
+
+/-- `build.Generate`'s process exit code for the given configuration. -/
+def generateExit (mx : Nat) (passes : List Pass) (c : Ctx) : Nat := exitCode (main mx passes c).status
+
 /-- Some function of the file makes the stub printer fail. -/
 def stubFails (c : Ctx) : Bool := c.fns.any Fn.stubBreaks
 
